@@ -527,7 +527,6 @@ type gen struct {
 	live bool   // printable 7-bit password: also handed to libxcrypt
 }
 
-
 // checkMalformed applies Cost and CompareHashAndPassword to an arbitrary byte string.
 // Oracle: never panic; for strings of the strict grammar the results equal the model's;
 // otherwise CompareHashAndPassword may only succeed if the salt and digest fields are
